@@ -64,9 +64,9 @@ Contents(o, src) ==
             \cup (IF shape THEN UNION {ModelBad(o, src, mn[k], lv[k]) : k \in DOMAIN lv}
                                \cup B(SharedMeshOK(o, src), "C06.SharedMesh")
                                \cup B(SharedMaterialOK(o, src), "C06.SharedMaterial")
+                               \cup B(MaterialOnce(o, src), "C06.MaterialOnce")
                   ELSE {})
             \cup (IF lshape THEN B(\A k \in DOMAIN ln : LightOK(o, ln[k], src.lights[k]), "C06.Lights") ELSE {})
-            \cup B(MaterialOnce(o), "C06.MaterialOnce")
             \cup B(TextureOnce(o), "C06.TextureOnce")
             \cup B(NoOrphans(o), "C06.NoOrphans")
             \cup B(SourcesExact(src), "Harness.InexactSource"),
